@@ -1,4 +1,4 @@
 #!/bin/bash
 # Re-evaluates every seeded change in /verif/seeded against the current checks (3 at a time).
 cd "$(dirname "$0")/.."
-ls seeded | grep -E '^C[0-9]+-(r2-)?[0-9]+$' | xargs -P 3 -I{} sh -c 'python3 runner/seed_eval.py seeded/{} {} 2>&1 | tail -1 | cut -c1-200'
+ls seeded | grep -E '^C[0-9]+-(r[0-9]-)?[0-9]+$' | xargs -P 3 -I{} sh -c 'python3 runner/seed_eval.py seeded/{} {} 2>&1 | tail -1 | cut -c1-200'
